@@ -139,6 +139,29 @@ func TestVerifC17(t *testing.T) {
 			}
 		}
 	}
+	// late retransmissions: numbers far below the window arrive again (a sender that retries old requests); whatever is stored for
+	// them must be gone again after the track's next regular upload
+	for T := 2; T <= 3; T++ {
+		for _, tsbd := range []uint64{4, 12} {
+			var ups []vfUp
+			win := uint32(tsbd/2 + 2)
+			last := 100 + 3*win
+			for n := uint32(100); n <= last; n++ {
+				for tr := 0; tr < T; tr++ {
+					ups = append(ups, vfUp{tr: tr, seq: n})
+				}
+			}
+			for k := uint32(0); k < 3; k++ {
+				ups = append(ups, vfUp{tr: int(k) % T, seq: 101 + k, dup: true}, vfUp{tr: 0, seq: 100 + k, dup: true})
+			}
+			for n := last + 1; n <= last+4; n++ {
+				for tr := 0; tr < T; tr++ {
+					ups = append(ups, vfUp{tr: tr, seq: n})
+				}
+			}
+			scheds = append(scheds, vfSched{name: fmt.Sprintf("late-retransmission-%d", T), nTracks: T, tsbd: tsbd, ups: ups, firstSeq: 100, shape: "retransmission"})
+		}
+	}
 	// seeded large
 	nSeeded := r.Pick(120, 4000)
 	for i := 0; i < nSeeded; i++ {
